@@ -48,7 +48,7 @@ def setup(tier, seed):
             samples.append(open(f, encoding='utf8').read())
         except Exception:
             pass
-    return {'real': real, 'samples': samples, 'flagsets': set()}
+    return {'real': real, 'samples': samples, 'flagsets': set(), 'tier': tier}
 
 
 def finish(ctx):
@@ -125,10 +125,48 @@ def run_cli(tmp, flags, srcs, mode_out, mode_in, stdin_text=None, hashseed='0'):
     return p.returncode, out, p.stderr.decode('utf8', 'replace'), p.stdout.decode('utf8', 'replace')
 
 
+def case_big_input(ctx, rng, c):
+    """large sources with dense multi-byte text (sizes around 64 KiB / 128 KiB / 1 MiB block boundaries), given as a file
+    and on standard input: the output must be the library's for that text"""
+    real = ctx['real']
+    tmp = tempfile.mkdtemp(prefix='ypv-c19b-')
+    try:
+        size = rng.choice([65536, 131072, 1048576 if (rng.random() < 0.2 and ctx.get('tier') == 'thorough') else 65536])
+        ch = rng.choice(['щ', 'é', '丙', '😀'])
+        pad = rng.choice(['', ' ', '  ', '   '])
+        nchar = size // len(ch.encode('utf8')) + 50
+        text = "%sbig('%s').\nsmall(a).\n" % (pad, ch * nchar)
+        path = os.path.join(tmp, 'big.prolog')
+        with open(path, 'w', encoding='utf8', newline='') as f:
+            f.write(text)
+        want = real.Cm.compile_prolog_from_file(path, Ctx)
+        for mi in ('stdin', 'files'):
+            for mo in ('stdout', 'file'):
+                rc, out, err, raw = run_cli(tmp, [], ['-'] if mi == 'stdin' else [path], mo, mi, text if mi == 'stdin' else None,
+                                            hashseed=str(rng.choice([0, 1, 2])))
+                c['cli_runs'] = c.get('cli_runs', 0) + 1
+                c['big_input_runs'] = c.get('big_input_runs', 0) + 1
+                if mi == 'stdin':
+                    c['stdin_runs'] = c.get('stdin_runs', 0) + 1
+                if rc != 0 or out != want:
+                    i = 0
+                    while i < min(len(out), len(want)) and out[i] == want[i]:
+                        i += 1
+                    return {'c': c, 'nt': True, 'key': None,
+                            'v': {'kind': 'output_differs_from_library_for_large_input', 'detail': {'returncode': rc, 'first_difference_at_char': i,
+                                  'cli': out[i:i + 20], 'library': want[i:i + 20], 'stderr': err[-200:], 'input': mi, 'output': mo},
+                                  'witness': {'source_bytes': len(text.encode('utf8')), 'character': ch, 'padding': len(pad), 'input': mi, 'output': mo}}}
+    finally:
+        shutil.rmtree(tmp, ignore_errors=True)
+    return {'c': c, 'nt': True, 'key': ('big', size, ch, pad)}
+
+
 def run_case(ctx, seed, idx, tier):
     rng = random.Random((seed * 1000003 + idx) * 7 + 19)
     real = ctx['real']
     c = {}
+    if idx % 12 == 11:
+        return case_big_input(ctx, rng, c)
     from ..harness import h64
     keys = []
     tmp = tempfile.mkdtemp(prefix='ypv-c19-')
